@@ -3,6 +3,7 @@
    layer initialized once) and the model-level statement that both continue from the SAME opened
    stack (Archive.open_stack), so every theorem about that stack (C11_stack_refines, C11_stack_open)
    is a theorem about the stack `mlar info` reads through.  Also the Tie A facts of `info` itself. *)
+From MLA Require Import Limit.
 From MLA Require Import Base Stream Blocks Reader CompLayer EncLayer RawLayer LayerStack Format Ecies Archive CliInfo SrcTieFormat.
 From MLAGen Require Src.
 From Coq Require Import ZifyBool ZifyNat ZifyN.
@@ -38,6 +39,7 @@ Proof. intros Hl. unfold sum_u64. destruct (N.ltb_spec (total l) (2 ^ 64)); [ref
 
 Section InfoStack.
   Variables CHUNK TAG BLOCK LIMIT : N.
+  Local Hint Extern 0 Limit => exact LIMIT : typeclass_instances.
   Variable dh : bytes -> bytes -> bytes.
   Variable kdf : bytes -> bytes.
   Variables wdec wtag : bytes -> bytes -> bytes.
